@@ -1,7 +1,9 @@
 """C08  Replicas converge regardless of delivery order, duplication and batching.
 
 (M) Crdt.tla model-checked: Convergence, Lww (3 nodes with skewed clocks, deliveries of
-    1-2 message batches any number of times, pushes).
+    1-2 message batches any number of times, pushes).  CrdtProofs.tla: the merge laws (idempotent,
+    inflationary, commutative/associative on distinct timestamps, no resurrection) proved by TLAPS
+    for unbounded timestamps.
 (G) CrdtGen: local-write histories on skewed nodes, with and without interleaved deliveries;
     the driver then delivers the messages of each history to fresh real replicas in EVERY
     order x EVERY batching (+ duplication families).
@@ -18,6 +20,7 @@ def check(run):
     thorough = run.tier == "thorough"
     rng = random.Random(run.seed)
     run.model_check("MC_Crdt", "MC_Crdt_c08.cfg" if not thorough else "MC_Crdt.cfg")
+    run.prove("CrdtProofs")       # the merge laws for unbounded timestamps (supplementary, never decides)
     scns = []
     for mp in ("sess", "subs", "ret"):
         vals = crdtlib.MAPS[mp]["vals"]
